@@ -145,7 +145,7 @@ type edit struct {
 }
 
 var inflateVals = func(arg uint64) []uint64 { return []uint64{arg + 1, 1 << 16, 1<<32 - 1, 1 << 63} }
-var tagSubst = []uint64{0, 1, 2, 3, 4, 5, 24, 30, 102, 121, 258, 259, 1280, 1 << 32, 1<<64 - 1}
+var tagSubst = []uint64{0, 1, 2, 3, 4, 5, 24, 30, 101, 102, 121, 258, 259, 1280, 1 << 32, 1<<64 - 1}
 var tagWrap = []uint64{2, 4, 24, 30, 121, 258}
 
 type embedded struct {
@@ -323,9 +323,6 @@ func seedFamilies(seedName string, sd []byte, isCbor bool, maxPos int, level int
 					fm := form
 					if fm > 0 && uint64(len(iv)) >= 1<<(8*uint(fm)) && fm < 8 {
 						fm = -1
-					}
-					if fm < 0 && form >= 0 {
-						// keep the original (possibly non-minimal) head size when it still fits
 					}
 					out := make([]byte, 0, L+len(iv)-len(inner)+9)
 					out = append(out, sd[:e.start]...)
